@@ -109,7 +109,7 @@ contract(AC + "._send_command_get_response_with_id",
          params={"self": "obj:" + AC, "command": "obj:" + CMD + "Command", "response_id": "int"}, globals=G,
          rtype="union:none|" + RESPONSE_ALTS,
          modifies=["Command._message_id", "self._supported"],
-         emits={"sent": "command"},
+         emits={"sent": "command", "got": "result"},
          raises={},
          ensures={"matching_id": "implies(result is not None, result._id == response_id)",
                   "one_exchange": "len(events('sent')) == 1 and same_object(events('sent')[0], command)"},
@@ -219,6 +219,7 @@ def cap(res, key):
 contract(AC + "._update_capabilities",
          params={"self": "obj:" + AC, "res": "obj:" + CMD + "CapabilitiesResponse"},
          modifies=CAP_ATTRS,
+         emits={"caps_applied": "dict(res._capabilities)"},
          raises={},
          ensures={
              # C16: the property ids the device advertised (breeze control supersedes the legacy ids)
@@ -243,7 +244,13 @@ contract(AC + ".get_capabilities",
          params={"self": "obj:" + AC}, globals=G,
          modifies=CAP_ATTRS + ["self._supported", "Command._message_id"],
          raises={},
-         post_let={"S": "events('sent')"},
+         post_let={"S": "events('sent')", "R": "events('got')", "A": "events('caps_applied')"},
          ensures={"first_page": "len(S) >= 1 and isinstance(S[0], GetCapabilitiesCommand) and S[0]._additional == False",
+                  # C15: paging
+                  "no_caps_no_update": "implies(not isinstance(R[0], CapabilitiesResponse), len(S) == 1 and len(A) == 0)",
+                  "second_page_requested_iff_flag": "implies(isinstance(R[0], CapabilitiesResponse), (len(S) == 2) == R[0]._additional_capabilities)",
+                  "single_page_applied": "implies(isinstance(R[0], CapabilitiesResponse) and len(S) == 1, len(A) == 1 and A[0] == R[0]._capabilities)",
+                  "pages_merged_in_order": "implies(len(S) == 2 and isinstance(R[1], CapabilitiesResponse), len(A) == 1 and A[0] == merged(R[0]._capabilities, R[1]._capabilities))",
+                  "first_page_kept_if_second_fails": "implies(len(S) == 2 and not isinstance(R[1], CapabilitiesResponse), len(A) == 1 and A[0] == R[0]._capabilities)",
                   "second_page_is_additional": "implies(len(S) >= 2, isinstance(S[1], GetCapabilitiesCommand) and S[1]._additional == True)",
                   "at_most_two": "len(S) <= 2"})
